@@ -324,10 +324,10 @@ def enumerate_cases(tier: str, seed: int = 0):
     chunks = [[c] for c in EXTERNAL]
     for curve in ('BL', 'p2', 'sp', 'ed'):      # slowest first (load balance of the ordered pool map)
         bl = curve == 'BL'
-        nkeys = (3 if bl else 8) if thorough else (2 if bl else 4)
+        nkeys = (2 if bl else 8) if thorough else (2 if bl else 4)
         secrets = CC.secrets_of(curve, nkeys, seed)
         if bl:
-            msgs = [MESSAGES[0], MESSAGES[2], MESSAGES[4], MESSAGES[1]] if thorough else [MESSAGES[0], MESSAGES[2]]
+            msgs = [MESSAGES[0], MESSAGES[2], MESSAGES[4]] if thorough else [MESSAGES[0], MESSAGES[2]]
         else:
             msgs = MESSAGES
         others = {c: CC.secrets_of(c, 1, seed)[0] for c in CC.CURVES}
@@ -358,9 +358,9 @@ def enumerate_cases(tier: str, seed: int = 0):
                     # --- signature alterations
                     sb = SIG_LEN(curve) * 8
                     if bl:
-                        how = 24
+                        how = 12
                     elif curve == 'p2':
-                        how = 'all' if (thorough or (ki == 0 and mi < 2)) else 'bytes'
+                        how = 'all' if ((thorough and ki < 4) or (ki == 0 and mi < 2)) else 'bytes'
                     else:
                         how = 'all' if (thorough or mi < 2) else 'bytes'
                     for b in _bits(sb, how):
@@ -380,9 +380,9 @@ def enumerate_cases(tier: str, seed: int = 0):
                             alts.append(dict(t='key', op='other', secret=s2.hex()))
                     kb = (48 if bl else 32 if curve == 'ed' else 33) * 8
                     if bl:
-                        khow = 8
+                        khow = 6
                     elif curve == 'p2':
-                        khow = 'all' if (thorough or (ki == 0 and mi == 0)) else 'bytes'
+                        khow = 'all' if ((thorough and ki < 4 and mi < 3) or (ki == 0 and mi == 0)) else 'bytes'
                     else:
                         khow = 'all' if (thorough or (ki < 2 and mi == 0)) else 'bytes'
                     for b in _bits(kb, khow):
@@ -394,8 +394,8 @@ def enumerate_cases(tier: str, seed: int = 0):
                                 alts.append(dict(t='curve', other=c2, secret=others[c2].hex()))
                                 if SIG_LEN(c2) == SIG_LEN(curve):
                                     alts.append(dict(t='prefix', kind=SPECIFIC[c2]))
-                    if bl:      # thorough: CHECK_SIGNATURE on every 4th rejection
-                        cases += [dict(k='reject', alt=a, chk=(j % 4 == 0), **base) for j, a in enumerate(alts)]
+                    if bl:      # thorough: CHECK_SIGNATURE on every 6th rejection
+                        cases += [dict(k='reject', alt=a, chk=(j % 6 == 0), **base) for j, a in enumerate(alts)]
                         for i in range(0, len(cases), 5):
                             chunks.append(cases[i:i + 5])
                     else:
